@@ -297,6 +297,9 @@ func init() {
 			if n >= 3 && n <= 4 {
 				qd = th + 1 // the full menu (8 decision kinds x members) is wide: one step past the threshold in the quick tier
 			}
+			if n == 4 {
+				td = th + 2 // (18 million states at th+3 before the menu grew by two kinds)
+			}
 			parts = append(parts, part{fmt.Sprintf("neofs-votes-n%d", n), func() Driver { return NewVoteDriver(n, n >= 3, full) }, qd, td, 30, 150})
 		}
 		// two ballots and several waits: only setConfig votes for two ids and the clock, deeper
@@ -383,8 +386,8 @@ func init() {
 				{"store-reputation", func() Driver { return NewRepDriver(tier) }, 3, 4, 30, 150},
 				{"store-audit", func() Driver { return NewAudDriver(tier) }, 3, 4, 30, 150},
 				{"store-estimations", func() Driver { return NewEstDriver(tier) }, 4, 6, 30, 150},
-				{"store-estimations-epoch-126", func() Driver { return NewEstDriverAt(tier, 126) }, 4, 6, 30, 150},
-				{"store-estimations-epoch-254", func() Driver { return NewEstDriverAt(tier, 254) }, 4, 6, 30, 150},
+				{"store-estimations-epoch-126", func() Driver { return NewEstDriverAt(tier, 126) }, 4, 5, 30, 150},
+				{"store-estimations-epoch-254", func() Driver { return NewEstDriverAt(tier, 254) }, 4, 5, 30, 150},
 				{"store-neofsid", func() Driver { return NewIDDriver() }, 4, 6, 30, 150},
 				{"store-config", func() Driver { return NewCfgDriver() }, 3, 4, 30, 150},
 			}
